@@ -188,7 +188,7 @@ func c17Run(c *mon.Case, p c17P) {
 		if p.Sched != 0 {
 			ctl.Random(append(storeHooks, "store.DeleteRange.afterSync")...)
 		}
-		e := &env{c: c, d: memds.New(), cfg: p.Cfg, chain: newChain(p.N + 4), P: map[uint64]bool{}}
+		e := &env{c: c, d: memds.New(), cfg: p.Cfg, chain: newChain(p.N + 4), P: map[uint64]bool{}, ghostCheck: true}
 		if err := e.open(); err != nil {
 			c.Trivial()
 			return
